@@ -1,15 +1,330 @@
 package main
 
 import (
+	"encoding/json"
+	"flag"
 	"fmt"
-
-	"golang.org/x/tools/go/packages"
-	"golang.org/x/tools/go/ssa"
-	"golang.org/x/tools/go/ssa/ssautil"
+	"os"
+	"path/filepath"
+	"sort"
+	"strconv"
+	"strings"
+	"time"
 )
 
-var _ = packages.Load
-var _ = ssautil.AllPackages
-var _ ssa.Function
+const verifDir = "/verif"
 
-func main() { fmt.Println("govc") }
+type aggObl struct {
+	Name      string      `json:"name"`
+	Instances int         `json:"instances"`
+	Trivial   int         `json:"trivially_true_instances,omitempty"`
+	Result    string      `json:"result"` // discharged | refuted | undecided | cover-ok | vacuous
+	Backend   string      `json:"backend,omitempty"`
+	Ms        int64       `json:"ms"`
+	Files     []string    `json:"-"`
+	Bad       *Obligation `json:"-"`
+}
+
+type runResult struct {
+	funcs     []string
+	aggs      map[string]*aggObl
+	errs      []string
+	paths     int
+	notes     []string
+	trusted   []string
+	solverMs  int64
+	truncated []string
+	g         *Gen
+	allObls   []*Obligation
+}
+
+func repoDir() string {
+	if d := os.Getenv("VERIF_REPO"); d != "" {
+		return d
+	}
+	return "/repo"
+}
+
+func loadAll() (*Program, *ContractDB, error) {
+	P, err := LoadProgram(repoDir())
+	if err != nil {
+		return nil, nil, err
+	}
+	db := NewContractDB()
+	if err := db.LoadAll(repoDir(), filepath.Join(verifDir, "govc", "stdlib_contracts.txt")); err != nil {
+		return P, db, err
+	}
+	return P, db, nil
+}
+
+// verifyFuncs generates and discharges the obligations of the named functions.
+func verifyFuncs(P *Program, db *ContractDB, names []string, lemmas []string, workDir string, timeoutS, seed int) *runResult {
+	g := NewGen(P, db)
+	rr := &runResult{aggs: map[string]*aggObl{}, g: g}
+	var all []*Obligation
+	trusted := map[string]bool{}
+	for _, n := range names {
+		con := db.Funcs[n]
+		fn := P.Funcs[n]
+		if fn == nil {
+			rr.errs = append(rr.errs, "contract for unknown function "+n)
+			continue
+		}
+		if con.Trusted {
+			trusted[n] = true
+			continue
+		}
+		rr.funcs = append(rr.funcs, n)
+		vc := VerifyFunc(g, fn, con, 4000)
+		rr.errs = append(rr.errs, vc.errs...)
+		rr.paths += vc.paths
+		if vc.truncated {
+			rr.truncated = append(rr.truncated, n)
+		}
+		for cn, c := range vc.usedContracts {
+			if c.Trusted {
+				trusted[cn] = true
+			}
+		}
+		for name, k := range vc.trivial {
+			full := n + "#" + name
+			a := rr.aggs[full]
+			if a == nil {
+				a = &aggObl{Name: full, Result: "discharged", Backend: "syntactic"}
+				rr.aggs[full] = a
+			}
+			a.Trivial += k
+			a.Instances += k
+		}
+		all = append(all, vc.obls...)
+	}
+	for _, ln := range lemmas {
+		o, err := lemmaObligation(g, db, ln)
+		if err != nil {
+			rr.errs = append(rr.errs, err.Error())
+			continue
+		}
+		all = append(all, o)
+	}
+	t0 := time.Now()
+	Discharge(g, all, workDir, timeoutS, seed, 16, false)
+	rr.solverMs = time.Since(t0).Milliseconds()
+	rr.allObls = all
+	for _, o := range all {
+		a := rr.aggs[o.Name]
+		if a == nil {
+			a = &aggObl{Name: o.Name, Result: "discharged"}
+			rr.aggs[o.Name] = a
+		}
+		a.Instances++
+		a.Ms += o.Ms
+		if o.Cover {
+			switch o.Result {
+			case "sat":
+				a.Result = "cover-ok"
+			case "unsat":
+				a.Result = "vacuous"
+				a.Bad = o
+			default:
+				a.Result = "cover-unknown"
+			}
+			a.Backend = o.Solver
+			continue
+		}
+		switch o.Result {
+		case "unsat":
+			if a.Backend == "" || a.Backend == "syntactic" {
+				a.Backend = o.Solver
+			} else if !strings.Contains(a.Backend, o.Solver) {
+				a.Backend += "," + o.Solver
+			}
+		case "sat":
+			a.Result = "refuted"
+			if a.Bad == nil || a.Bad.Result != "sat" {
+				a.Bad = o
+			}
+		default:
+			if a.Result != "refuted" {
+				a.Result = "undecided"
+				if a.Bad == nil {
+					a.Bad = o
+				}
+			}
+		}
+	}
+	for n := range g.notes {
+		rr.notes = append(rr.notes, n)
+	}
+	sort.Strings(rr.notes)
+	for n := range trusted {
+		rr.trusted = append(rr.trusted, n)
+	}
+	sort.Strings(rr.trusted)
+	return rr
+}
+
+func lemmaObligation(g *Gen, db *ContractDB, name string) (*Obligation, error) {
+	ax := db.Axioms[name]
+	if ax == nil {
+		return nil, fmt.Errorf("unknown lemma %s", name)
+	}
+	st := &State{g: g, heaps: map[string]string{}, written: map[string]bool{}}
+	env := st.specEnv(ax.Pkg, map[string]SV{})
+	for _, u := range ax.Uses {
+		if err := assumeAxiom(st, db, u); err != nil {
+			return nil, err
+		}
+	}
+	t, err := env.Bool(ax.E)
+	if err != nil {
+		return nil, fmt.Errorf("lemma %s: %v", name, err)
+	}
+	return &Obligation{Name: "lemma[" + name + "]", Func: "lemma", Kind: "lemma", NDecl: len(g.decls), PC: append([]string(nil), st.pc...), Goal: t, Info: ax.Src}, nil
+}
+
+func assumeAxiom(st *State, db *ContractDB, name string) error {
+	ax := db.Axioms[name]
+	if ax == nil {
+		return fmt.Errorf("unknown axiom/lemma %s", name)
+	}
+	env := st.specEnv(ax.Pkg, map[string]SV{})
+	t, err := env.Bool(ax.E)
+	if err != nil {
+		return fmt.Errorf("axiom %s: %v", name, err)
+	}
+	st.assume(t)
+	if !ax.IsLemma {
+		st.g.note("axiom " + name + ": " + ax.Src)
+	}
+	return nil
+}
+
+func cmdVC(args []string) int {
+	fs := flag.NewFlagSet("vc", flag.ExitOnError)
+	fn := fs.String("func", "", "short function name(s), comma separated (default: all with contracts)")
+	to := fs.Int("timeout", 10, "solver timeout (s)")
+	verbose := fs.Bool("v", false, "print every instance")
+	keep := fs.Bool("keep", false, "keep SMT files")
+	dbg := fs.Bool("debug", false, "re-panic on engine errors")
+	fs.Parse(args)
+	debugPanics = *dbg
+	P, db, err := loadAll()
+	if err != nil {
+		fmt.Fprintln(os.Stderr, err)
+		return 2
+	}
+	var names []string
+	if *fn == "" {
+		for _, n := range db.Order {
+			names = append(names, n)
+		}
+	} else {
+		for _, n := range strings.Split(*fn, ",") {
+			if db.Funcs[n] == nil {
+				// allow suffix match
+				for _, c := range db.Order {
+					if strings.HasSuffix(c, n) {
+						n = c
+						break
+					}
+				}
+			}
+			if db.Funcs[n] == nil {
+				fmt.Fprintln(os.Stderr, "no contract for", n)
+				return 2
+			}
+			names = append(names, n)
+		}
+	}
+	work, _ := os.MkdirTemp("", "govc-vc-")
+	if !*keep {
+		defer os.RemoveAll(work)
+	} else {
+		fmt.Println("work dir:", work)
+	}
+	var lemmas []string
+	if *fn == "" {
+		for _, n := range sortedKeys(db.Axioms) {
+			if db.Axioms[n].IsLemma {
+				lemmas = append(lemmas, n)
+			}
+		}
+	}
+	rr := verifyFuncs(P, db, names, lemmas, work, *to, 0)
+	for _, e := range rr.errs {
+		fmt.Println("ERROR:", e)
+	}
+	bad := 0
+	for _, n := range sortedKeys(rr.aggs) {
+		a := rr.aggs[n]
+		fmt.Printf("%-12s %4d inst %6d ms %-10s %s\n", a.Result, a.Instances, a.Ms, a.Backend, a.Name)
+		if a.Result != "discharged" && a.Result != "cover-ok" {
+			bad++
+			if a.Bad != nil {
+				fmt.Printf("      first failing instance: path %d result %s file %s\n      %s\n", a.Bad.Path, a.Bad.Result, a.Bad.File, a.Bad.Info)
+			}
+		}
+	}
+	if *verbose {
+		for _, o := range rr.allObls {
+			fmt.Printf("  %-8s %5dms %-7s path=%d %s\n", o.Result, o.Ms, o.Solver, o.Path, o.Name)
+		}
+	}
+	fmt.Printf("functions=%d paths=%d obligations=%d not-discharged=%d errors=%d solver-wall=%dms truncated=%v\n", len(rr.funcs), rr.paths, len(rr.aggs), bad, len(rr.errs), rr.solverMs, rr.truncated)
+	for _, n := range rr.notes {
+		fmt.Println("note:", n)
+	}
+	if bad > 0 || len(rr.errs) > 0 {
+		return 1
+	}
+	return 0
+}
+
+func main() {
+	if len(os.Args) < 2 {
+		fmt.Println("usage: govc vc|check|claim|list ...")
+		os.Exit(2)
+	}
+	switch os.Args[1] {
+	case "vc":
+		os.Exit(cmdVC(os.Args[2:]))
+	case "check":
+		os.Exit(cmdCheck(os.Args[2:]))
+	case "claim":
+		os.Exit(cmdClaim(os.Args[2:]))
+	case "list":
+		P, db, err := loadAll()
+		if err != nil {
+			fmt.Fprintln(os.Stderr, err)
+			os.Exit(2)
+		}
+		for _, n := range db.Order {
+			_, ok := P.Funcs[n]
+			fmt.Printf("%-60s props=%v trusted=%v found=%v\n", n, db.Funcs[n].Props, db.Funcs[n].Trusted, ok)
+		}
+		if len(os.Args) > 2 && os.Args[2] == "-funcs" {
+			for _, n := range sortedKeys(P.Funcs) {
+				fmt.Println("  fn", n)
+			}
+		}
+	default:
+		fmt.Println("unknown command", os.Args[1])
+		os.Exit(2)
+	}
+}
+
+func atoiDef(s string, d int) int {
+	if n, err := strconv.Atoi(s); err == nil {
+		return n
+	}
+	return d
+}
+
+func writeJSON(path string, v interface{}) error {
+	b, err := json.MarshalIndent(v, "", " ")
+	if err != nil {
+		return err
+	}
+	os.MkdirAll(filepath.Dir(path), 0o755)
+	return os.WriteFile(path, append(b, '\n'), 0o644)
+}
